@@ -395,8 +395,139 @@ fn rendezvous_witness(frag: Option<String>) -> i32 {
     }
 }
 
+/// Thread identity is invisible to the controlled runtime (all of its tasks share one OS thread), so this small
+/// exhaustive enumeration runs on real threads: every plan of a fixed set x every sequence of three dispatches,
+/// each issued either from the main thread or from a freshly spawned one x {dispatch_seq, dispatch}; after every
+/// dispatch every system - the thread-local ones inside batches included - has run exactly the expected number
+/// of times.
+fn threadhop_witness(frag: Option<String>) -> i32 {
+    use shred::{BatchController, System};
+    struct Count(Arc<AtomicU32>);
+    impl<'a> System<'a> for Count {
+        type SystemData = ();
+        fn run(&mut self, _: ()) {
+            self.0.fetch_add(1, Ordering::SeqCst);
+        }
+    }
+    struct Ctrl(u32);
+    impl<'a, 'b, 'c> BatchController<'a, 'b, 'c> for Ctrl {
+        type BatchSystemData = ();
+        fn run(&mut self, world: &'c World, dispatcher: &mut Dispatcher<'a, 'b>) {
+            for _ in 0..self.0 {
+                dispatcher.dispatch(world);
+            }
+        }
+    }
+    let t0 = Instant::now();
+    let mut results: Vec<Value> = Vec::new();
+    let mut failures = 0;
+    // plan k: (description, builder of (dispatcher, counters with per-dispatch expectation))
+    let plans: Vec<&str> = vec!["a", "batch[i; tl]", "a; batch x2 [tl; tl]", "batch[batch[i; tl]; tl]", "a; |; batch[tl]; b"];
+    for (pk, pname) in plans.iter().enumerate() {
+        for hops in 0..8u8 {
+            for par in [false, true] {
+                let mut counters: Vec<(Arc<AtomicU32>, u32, String)> = Vec::new();
+                let mut mk = |per: u32, what: &str| -> Count {
+                    let c = Arc::new(AtomicU32::new(0));
+                    counters.push((c.clone(), per, what.to_string()));
+                    Count(c)
+                };
+                let pool = Arc::new(rayon::ThreadPoolBuilder::new().num_threads(3).build().unwrap());
+                let mut b = DispatcherBuilder::new();
+                b.add_pool(pool);
+                match pk {
+                    0 => b.add(mk(1, "a"), "a", &[]),
+                    1 => {
+                        let mut inner = DispatcherBuilder::new();
+                        inner.add(mk(1, "i"), "i", &[]);
+                        inner.add_thread_local(mk(1, "tl in batch"));
+                        b.add_batch::<Ctrl>(Ctrl(1), inner, "batch", &[]);
+                    }
+                    2 => {
+                        b.add(mk(1, "a"), "a", &[]);
+                        let mut inner = DispatcherBuilder::new();
+                        inner.add_thread_local(mk(2, "tl0 in batch x2"));
+                        inner.add_thread_local(mk(2, "tl1 in batch x2"));
+                        b.add_batch::<Ctrl>(Ctrl(2), inner, "batch", &[]);
+                    }
+                    3 => {
+                        let mut innermost = DispatcherBuilder::new();
+                        innermost.add(mk(1, "i (depth 2)"), "i", &[]);
+                        innermost.add_thread_local(mk(1, "tl (depth 2)"));
+                        let mut mid = DispatcherBuilder::new();
+                        mid.add_batch::<Ctrl>(Ctrl(1), innermost, "n", &[]);
+                        mid.add_thread_local(mk(1, "tl (depth 1)"));
+                        b.add_batch::<Ctrl>(Ctrl(1), mid, "batch", &[]);
+                    }
+                    _ => {
+                        b.add(mk(1, "a"), "a", &[]);
+                        b.add_barrier();
+                        let mut inner = DispatcherBuilder::new();
+                        inner.add_thread_local(mk(1, "tl in batch"));
+                        b.add_batch::<Ctrl>(Ctrl(1), inner, "batch", &[]);
+                        b.add(mk(1, "b"), "b", &["batch"]);
+                    }
+                }
+                let mut sd = match b.build().try_into_sendable() {
+                    Ok(sd) => sd,
+                    Err(_) => {
+                        failures += 1;
+                        results.push(json!({"plan": pname, "error": "no top-level thread-local system, yet try_into_sendable failed"}));
+                        continue;
+                    }
+                };
+                let mut world = World::empty();
+                sd.setup(&mut world);
+                let mut bad: Vec<String> = Vec::new();
+                for step in 0..3u32 {
+                    let off_main = hops & (1 << step) != 0;
+                    let r = {
+                        let (sdr, wr) = (&mut sd, &world);
+                        let mut go = move || {
+                            catch_unwind(AssertUnwindSafe(|| if par { sdr.dispatch(wr) } else { sdr.dispatch_seq(wr) })).is_ok()
+                        };
+                        if off_main {
+                            std::thread::scope(|s| s.spawn(go).join().unwrap_or(false))
+                        } else {
+                            go()
+                        }
+                    };
+                    if !r {
+                        bad.push(format!("dispatch {} panicked", step + 1));
+                    }
+                    for (c, per, what) in &counters {
+                        let got = c.load(Ordering::SeqCst);
+                        if got != per * (step + 1) {
+                            bad.push(format!("after dispatch {} ({}) system '{}' has run {} times, expected {}", step + 1, if off_main { "from a fresh thread" } else { "from the main thread" }, what, got, per * (step + 1)));
+                        }
+                    }
+                }
+                if !bad.is_empty() {
+                    failures += 1;
+                }
+                results.push(json!({"plan": pname, "dispatch": if par { "dispatch" } else { "dispatch_seq" }, "threads": (0..3).map(|k| if hops & (1 << k) != 0 { "fresh" } else { "main" }).collect::<Vec<_>>(), "problems": bad}));
+            }
+        }
+    }
+    let shown: Vec<Value> = results.iter().filter(|r| r.get("problems").and_then(|p| p.as_array()).map_or(true, |a| !a.is_empty())).take(5).cloned().collect();
+    let out = json!({"engine":"E4 real-thread witness","what":"exactly-once counters (thread-local systems inside batches included) after each of three dispatches of a sendable dispatcher on the unmodified crate; every plan of a fixed set x every assignment of the three dispatches to {main thread, freshly spawned thread} x {dispatch_seq, dispatch}; thread identity is outside the controlled runtime's model","configurations": results.len(), "failures": failures, "failing_examples": shown, "wall_s": t0.elapsed().as_secs_f64()});
+    if let Some(p) = frag {
+        std::fs::write(p, serde_json::to_string_pretty(&out).unwrap()).unwrap();
+    }
+    println!("E4 real-thread hop witness: configurations={} failures={} wall={:.1}s", results.len(), failures, t0.elapsed().as_secs_f64());
+    if failures > 0 {
+        3
+    } else {
+        0
+    }
+}
+
 fn main() {
     let args: Vec<String> = std::env::args().collect();
+    if args.get(1).map(|s| s.as_str()) == Some("--threadhop") {
+        let frag = args.iter().position(|a| a == "--frag").and_then(|i| args.get(i + 1).cloned());
+        std::process::exit(threadhop_witness(frag));
+    }
     if args.get(1).map(|s| s.as_str()) == Some("--rendezvous") {
         let frag = args.iter().position(|a| a == "--frag").and_then(|i| args.get(i + 1).cloned());
         std::process::exit(rendezvous_witness(frag));
